@@ -1,0 +1,54 @@
+//! **(verification hooks)** Observation points for an external conformance harness.
+//!
+//! This module is compiled only with `--cfg hctl_verif`. It lets a harness install a thread-local
+//! sink that receives the abstract events of the evaluation algorithm (cache hit / miss / save,
+//! optimised patterns, quantifier scopes, results of sub-formulae). Without a sink, emitting an
+//! event does nothing. The events only borrow data, so no serialisation code lives in this crate.
+
+use biodivine_lib_param_bn::symbolic_async_graph::GraphColoredVertices;
+use std::cell::RefCell;
+
+/// One abstract step of `eval_node`, reported after the change it describes.
+pub enum Event<'a> {
+    /// A duplicate sub-formula was fetched from the cache: canonical key, remaining counter, evicted?
+    Hit(&'a str, i32, bool),
+    /// A marked duplicate was not in the cache: canonical key, will the result be saved?
+    Miss(&'a str, bool),
+    /// The result of a marked duplicate was saved under the canonical key.
+    Save(&'a str),
+    /// One of the optimised patterns was recognised (`attractor` / `fixed-point`).
+    Pattern(&'a str),
+    /// A quantifier scope was opened: variable and (optional) domain label.
+    Open(&'a str, Option<&'a str>),
+    /// The domain of the quantified variable is empty in the current graph (early return).
+    Empty(&'a str),
+    /// A quantifier scope was closed.
+    Close(&'a str),
+    /// A sub-formula (its text) evaluated to the given set.
+    Return(&'a str, &'a GraphColoredVertices),
+}
+
+type Sink = Box<dyn FnMut(&Event)>;
+
+thread_local! {
+    static SINK: RefCell<Option<Sink>> = const { RefCell::new(None) };
+}
+
+/// Install the sink for the current thread (replacing any previous one).
+pub fn set_sink(sink: Sink) {
+    SINK.with(|s| *s.borrow_mut() = Some(sink));
+}
+
+/// Remove the sink of the current thread.
+pub fn clear_sink() {
+    SINK.with(|s| *s.borrow_mut() = None);
+}
+
+/// Report an event to the installed sink (if any).
+pub(crate) fn emit(event: &Event) {
+    SINK.with(|s| {
+        if let Some(sink) = s.borrow_mut().as_mut() {
+            sink(event);
+        }
+    });
+}
